@@ -12,6 +12,7 @@ mod linkmode;
 mod mst;
 mod ost;
 mod pair;
+mod sockmode;
 
 use std::io::BufRead;
 use std::sync::atomic::{AtomicBool, Ordering};
@@ -87,6 +88,7 @@ fn main() {
                     "transport" => run_paused(linkmode::run_transport(&sc)),
                     "codec" => run_paused(appmode::run_case(&sc)),
                     "pair" => run_paused(pair::run_scenario(&sc)),
+                    "sock" => sockmode::run_scenario_blocking(&sc),
                     _ => {
                         eprintln!("unknown mode {m}");
                         std::process::exit(2);
